@@ -51,6 +51,7 @@ class St:
         self.vis: list = []
         self.groups: list = []
         self.fix: list = []      # EntityFixup objects under test (attached to entities in v[0])
+        self.fxo: list = []      # stand-alone EntityFixup objects made through the copy protocols
         self.problems: list = []
 
 
@@ -178,6 +179,33 @@ def apply(st: St, op: list) -> None:
             g = VisGroup(v0, 'c', op[2])
             st.vis[op[1]].child_groups.append(g)
             st.vis.append(g)
+        elif k == 'vispromote':
+            # a child group becomes a top-level group of the map (moved, not copied)
+            g = st.vis[op[1]]
+            for parent in st.vis:
+                if parent is not None and g in parent.child_groups:
+                    parent.child_groups.remove(g)
+                    v0.vis_tree.append(g)
+                    break
+        elif k == 'visdissolve':
+            # a top-level group is dissolved: its children take its place in the tree, the group object is dropped
+            g = st.vis[op[1]]
+            if g in v0.vis_tree:
+                v0.vis_tree.remove(g)
+                v0.vis_tree.extend(g.child_groups)
+                st.vis[op[1]] = None
+                del g
+                gc.collect()
+        elif k == 'visdrop':
+            g = st.vis[op[1]]
+            if g in v0.vis_tree:
+                v0.vis_tree.remove(g)
+            for parent in st.vis:
+                if parent is not None and g in parent.child_groups:
+                    parent.child_groups.remove(g)
+            st.vis[op[1]] = None
+            del g
+            gc.collect()
         elif k == 'viscreate':
             st.vis.append(v0.create_visgroup('n'))
         elif k == 'viscopy':
@@ -215,6 +243,19 @@ def apply(st: St, op: list) -> None:
             e = Entity(v0, keys={'classname': 'func_instance'}, fixup=st.fix[op[1]].fixup.copy_values())
             v0.add_ent(e)
             st.fix.append(e)
+        elif k == 'fxproto':
+            import copy as _copy
+            import pickle as _pickle
+            src = st.fix[op[1]].fixup
+            st.fxo_how = getattr(st, 'fxo_how', []) + [op[2]]
+            st.fxo.append({'copy.copy': _copy.copy, 'deepcopy': _copy.deepcopy, 'pickle': lambda o: _pickle.loads(_pickle.dumps(o)),
+                           'copy()': lambda o: EntityFixup(o.copy_values())}[op[2]](src))
+        elif k == 'fxoset':
+            st.fxo[op[1]][op[2]] = 'w'
+        elif k == 'fxodel':
+            del st.fxo[op[1]][op[2]]
+        elif k == 'fxoclear':
+            st.fxo[op[1]].clear()
         elif k == 'fixupdate':
             st.fix[op[1]].fixup.update(op[2])
         elif k == 'fixclear':
@@ -269,6 +310,7 @@ class Model(bfs.Model):
 
     def dispose(self, st: St) -> None:
         st.ents = st.solids = st.vis = st.groups = st.fix = []
+        st.fxo = []
         st.v = []
 
     def enabled(self, st: St) -> list:
@@ -340,9 +382,18 @@ class Model(bfs.Model):
                     ops.append(['vis', d])
                 ops.append(['viscreate'])
                 for i in range(len(st.vis)):
+                    if st.vis[i] is None:
+                        continue
                     ops.append(['vischild', i, st.vis[i].id])
                     ops.append(['viscopy', i, 0])
                     ops.append(['viscopy', i, 1])
+            for i in range(len(st.vis)):
+                if st.vis[i] is not None:
+                    if any(p is not None and st.vis[i] in p.child_groups for p in st.vis):
+                        ops.append(['vispromote', i])
+                    ops.append(['visdrop', i])
+                    if st.vis[i].child_groups:
+                        ops.append(['visdissolve', i])
             if len(st.groups) < self.maxh:
                 for d in (-1, 0, 1, 2):
                     ops.append(['group', d])
@@ -369,6 +420,14 @@ class Model(bfs.Model):
                     ops.append(['fixctor', i])
             if st.fix:
                 ops.append(['fixreparse'])
+            if st.fix and len(st.fxo) < 1:
+                for how in ('copy.copy', 'deepcopy', 'pickle', 'copy()'):
+                    ops.append(['fxproto', 0, how])
+            for j in range(len(st.fxo)):
+                for var in ('a', 'B', 'e'):
+                    ops.append(['fxoset', j, var])
+                    ops.append(['fxodel', j, var])
+                ops.append(['fxoclear', j])
         return ops
 
     def canon(self, st: St):
@@ -383,9 +442,13 @@ class Model(bfs.Model):
                         [(s.id, [f.id for f in s.sides]) for s in vmf.brushes], sorted(vmf.groups), vis_shape(vmf.vis_tree), vmf.spawn.id))
         out.append([(None if e is None else (e.id, _in_map(e), _node_keys(e))) for e in st.ents])
         out.append([(None if s is None else (s.id, _brush_in_map(s), [f.id for f in s.sides])) for s in st.solids])
-        out.append([[g.id, vis_shape(g.child_groups)] for g in st.vis])
+        out.append([None if g is None else [g.id, vis_shape(g.child_groups)] for g in st.vis])
         out.append([g.id for g in st.groups])
         out.append([sorted((k, f.var, f.value, f.id) for k, f in e.fixup._fixup.items()) for e in st.fix])
+        out.append([sorted((k, f.var, f.value, f.id) for k, f in fx._fixup.items()) for fx in st.fxo])
+        # how a stand-alone table was made is part of the state: tables with equal contents made through different copy
+        # protocols may share hidden structure with their source and so have different futures
+        out.append(list(getattr(st, 'fxo_how', [])))
         out.append(len(st.problems))
         return out
 
@@ -435,6 +498,12 @@ class Model(bfs.Model):
                         acc.fail(f'fixup_index_{prob[0]}', case, f'history={history}\n vmf{vi} entity #{e.id}: {prob[1]}',
                                  part=self.part, op=lastop)
                         break
+        for j, fx in enumerate(st.fxo):
+            prob = uniq_problem([f.id for f in fx._fixup.values()], 'fixup')
+            if prob:
+                acc.fail(f'fixup_index_{prob[0]}', case, f'history={history}\n stand-alone fixup table #{j} (made through a copy protocol): {prob[1]}',
+                         part=self.part, op=lastop)
+                break
         if nontrivial:
             acc.nontrivial += 1
         acc.outcome(repr(self.canon(st)[0][:11])[:160])
